@@ -27,16 +27,16 @@ def file_accessor_hazards(repo, col):
     ci = repo.cls("file_accessor", "FileAccessor")
     n = 0
     # 1. decompression is decided by the name, never by sniffing the content
-    for fn in m.functions.values():
-        for node in walk_local(fn.node):
-            if isinstance(node, ast.Constant) and isinstance(node.value, bytes) \
-                    and node.value.startswith(b"\x1f\x8b"):
-                n += 1
-                col.add(rule + ".no-sniffing", fn, "gzip magic %r" % node.value,
-                        False, "whether a file is decompressed depends on its "
-                        "first bytes: an uncompressed file that happens to "
-                        "start with 1f 8b is not returned as stored",
-                        node=node)
+    for node in ast.walk(m.tree):
+        if isinstance(node, ast.Constant) and isinstance(node.value, bytes) \
+                and node.value.startswith(b"\x1f\x8b"):
+            n += 1
+            col.add(rule + ".no-sniffing", "file_accessor:module",
+                    "gzip magic %r" % node.value, False,
+                    "whether a file is decompressed depends on its first "
+                    "bytes: an uncompressed file that happens to start with "
+                    "1f 8b is not returned as stored",
+                    loc="%s:%d" % (m.relpath, node.lineno))
     # 2. rename/replace onto the destination bypasses exclusive create
     for mname, fn in ci.methods.items():
         for c in calls_in(fn.node):
@@ -81,7 +81,8 @@ def file_accessor_hazards(repo, col):
                             if "open" in norm(it.context_expr):
                                 tests.append(list(conds))
                 else:
-                    if any("open(" in norm(c) for c in calls_in(st)):
+                    if any("open(" in norm(c) for c in calls_in(st)) or \
+                            "'.gz'" in norm(st):
                         tests.append(list(conds))
         rec(fn.node.body, [])
         used = set()
@@ -107,7 +108,7 @@ def file_accessor_hazards(repo, col):
                         "so a failing probe is reported as 'absent' instead "
                         "of DataAccessError" % nm, node=c)
     # 5. gzip streams must be read to their end-of-stream marker
-    for mname, fn in ci.methods.items():
+    for fn in m.functions.values():
         t = norm(fn.node)
         if "decompressobj(" in t:
             n += 1
@@ -380,6 +381,21 @@ def loop_error_discipline(repo, col):
                 "" if bad is None else "%s: %s, so a failed chunk leaves an "
                 "incomplete dataset while the command can still exit 0"
                 % (fn.qualname, why), node=bad)
+    # work handed to an executor: exceptions surface only through .result()
+    for m in repo.modules.values():
+        for f in m.functions.values():
+            subs = [c for c in calls_in(f.node) if isinstance(c.func, ast.Attribute)
+                    and c.func.attr in ("submit", "apply_async", "map_async")]
+            if not subs:
+                continue
+            repo.consulted.add(m.name)
+            t = norm(f.node)
+            ok = ".result(" in t or ".get(" in t and "apply_async" in t
+            col.add(rule + ".executor", f, norm(subs[0])[:60], ok, "" if ok
+                    else "tasks are submitted to an executor but their "
+                    "results are never retrieved: an exception raised in a "
+                    "worker (a failed chunk write) is silently dropped",
+                    node=subs[0])
     # a driver whose callee returns a status must pass it on
     npc = repo.func("volume_reader", "nibabel_image_to_precomputed")
     v2p = repo.func("volume_reader", "volume_to_precomputed")
@@ -529,7 +545,12 @@ def cosines_vectorised(repo, col):
             "shifts the loaded image's own affine by another half voxel")
     cj = repo.func("transform", "matrix_as_compact_urlsafe_json")
     lossy = []
-    for c in calls_in(cj.node):
+    tmod = repo.module("transform")
+    helper_calls = [c for f in tmod.functions.values()
+                    if f is not repo.func("transform",
+                                          "nifti_to_neuroglancer_transform")
+                    for c in calls_in(f.node)]
+    for c in helper_calls:
         if call_name(c) == "format" and len(c.args) == 2 and \
                 isinstance(c.args[1], ast.Constant) and \
                 isinstance(c.args[1].value, str) and \
